@@ -1457,7 +1457,7 @@ func run(c Case) (*hx.Failure, *info) {
 					fs.add(sigCycle, "%s %s: %s_id -> %s lies on a reference cycle; file has %q, mapping promises %q", name, fd.old, p.field, v, got, want)
 					taintedFK[fd.old+"/"+p.field] = true
 					anyTaint = true
-				case target != nil && hasFK(v) && (fd.pos < target.pos || target.old == target.new):
+				case target != nil && v != fd.old && hasFK(v) && (fd.pos < target.pos || target.old == target.new):
 					// the export had no (correct) cached new id for v when it wrote this foreign key: v was not
 					// exported yet, or it was exported with an unchanged id (only changed ids are cached)
 					fs.add(sigChain, "%s %s (file position %d): %s_id -> %s (position %d, id changes: %v, has a foreign key of its own); file has %q which is not the _docIDNew %q of the target",
@@ -1580,9 +1580,13 @@ func run(c Case) (*hx.Failure, *info) {
 				fromCol := sch.cols[q.from].name
 				want := []string{}
 				skipped := false
+				optional := map[string]bool{} // holders touched by a diagnosed finding: may be absent, re-identified or present
 				for _, holder := range secIDs(srow[q.field]) {
 					if taintedFK[holder+"/"+q.pfld] || lossyDoc[holder] {
 						skipped = true
+						if n, ok := mapping[holder]; ok {
+							optional[n] = true
+						}
 						continue
 					}
 					if n, ok := mapping[holder]; ok && exported[fromCol] {
@@ -1592,13 +1596,11 @@ func run(c Case) (*hx.Failure, *info) {
 				sort.Strings(want)
 				got := []string{}
 				for _, id := range secIDs(trow[q.field]) {
-					if skipped {
-						if _, ok := newIDs[id]; !ok {
-							continue
-						}
-						if fdh := newIDs[id]; fdh != nil && taintedFK[fdh.old+"/"+q.pfld] {
-							continue
-						}
+					if optional[id] {
+						continue
+					}
+					if _, promised := newIDs[id]; skipped && !promised {
+						continue // the re-identified copy of a document holding a rounded Int
 					}
 					got = append(got, id)
 				}
